@@ -34,6 +34,7 @@ func genPlan(r *rng, refs *refTable) (*Plan, planInfo) {
 	}
 	scribbleOn := r.chance(1, 2)
 	twiceOn := r.chance(1, 2)
+	freshOn := r.chance(1, 2)
 	info.Contention = r.intn(nContention)
 
 	// per-run input-class weights (swarm): 0 switches a class off for this run
@@ -152,6 +153,9 @@ func genPlan(r *rng, refs *refTable) (*Plan, planInfo) {
 			}
 			if twiceOn && r.chance(1, 6) {
 				op.Twice = true
+			}
+			if freshOn && r.chance(1, 2) {
+				op.Fresh = true
 			}
 			if scribbleOn && op.Shared < 0 && r.chance(1, 3) {
 				op.Scribble = true
